@@ -19,6 +19,14 @@ func checkC01(c *fw.Ctx) {
 	c.NotDecidedClause("shortest-escape minimality and the -0 rule of CompactJSON (known, not decided here: -0.5 loses its sign)")
 	c.NotDecidedClause("the numeric predicate inside verifyEnforcedCanonicalJSON (known, not decided here: 0.0, 0e5 and 1E5 are accepted)")
 
+	// the comparator rule reports positive evidence only (the compared field is stored from
+	// something that is not the decoded key), so it may also report on the inlined view, where
+	// the entries are collected and sorted in one function even if the source splits that up
+	if c.InlinedReports == nil {
+		c.InlinedReports = map[string]bool{}
+	}
+	c.InlinedReports["5 key-order|*: object keys are ordered by strings.Compare on the decoded key"] = true
+
 	// 1. validity gate
 	if fn := mustFunc(c, "1 gate", "CanonicalJSON"); fn != nil {
 		c.CheckGate("1 gate", fn, "CanonicalJSON", fw.GuardCallBool("gjson.Valid(input)", fw.NameIs("github.com/tidwall/gjson.Valid", "github.com/tidwall/gjson.ValidBytes"), true), fw.ErrNilSuccess(fn, fw.ErrIndex(fn), nil))
@@ -313,29 +321,71 @@ func checkKeyComparator(c *fw.Ctx, fn *ssa.Function, fam []*ssa.Function, call s
 	}
 	a, b := cmpCall.Common().Args[0], cmpCall.Common().Args[1]
 	fa, fb := loadedField(a), loadedField(b)
-	if fa == nil || fb == nil || fa.Field != fb.Field {
+	if fa != nil && fb != nil && fa.Field != fb.Field {
 		c.Fail(rule, construct, c.P.Pos(cmpCall.Pos()), "the comparator does not compare the same field of both entries")
 		return
 	}
+	// what each operand is: the decoded key (gjson String()), the raw key text, or unknown.
+	// A field of the entries is what is stored into it anywhere in the family.
+	isRaw := func(v ssa.Value) bool { return isGjsonField(v, "Raw") }
+	kind := func(v ssa.Value) string {
+		vals := []ssa.Value{v}
+		if f := loadedField(v); f != nil {
+			if st := derefStructOf(f.X.Type()); st != nil {
+				vals = fw.StoresToField(fam, st, f.Field)
+			}
+			if len(vals) == 0 {
+				return "unknown"
+			}
+		}
+		res := "decoded"
+		for _, x := range vals {
+			switch {
+			case gjsonDecoded(x) || fw.Derives3(x, fw.FlowSpec{IsSource: gjsonDecoded, All: true, Family: fam}) == fw.Yes:
+			case fw.Derives3(x, fw.FlowSpec{IsSource: isRaw, Family: fam, Arith: true, Through: func(cc ssa.CallInstruction) []int {
+				if cc.Common().StaticCallee() != nil && cc.Common().StaticCallee().Pkg != nil && strings.HasPrefix(cc.Common().StaticCallee().Pkg.Pkg.Path(), "strings") {
+					return []int{0}
+				}
+				return nil
+			}}) == fw.Yes && fw.Derives3(x, fw.FlowSpec{IsSource: gjsonDecoded, Family: fam}) != fw.Yes:
+				return "raw"
+			default:
+				res = "unknown"
+			}
+		}
+		return res
+	}
+	ka, kb := kind(a), kind(b)
+	switch {
+	case ka == "raw" || kb == "raw":
+		name := "the compared value"
+		if fa != nil {
+			if st := derefStructOf(fa.X.Type()); st != nil {
+				name = st.Field(fa.Field).Name()
+			}
+		}
+		c.Fail(rule, construct, c.P.Pos(cmpCall.Pos()), fmt.Sprintf("the field the comparator sorts on (%s) is not the decoded key (gjson String()) but the raw key text: keys whose raw spelling contains escapes sort by the backslash instead of the code point they denote", name))
+		return
+	case ka != "decoded" || kb != "decoded":
+		c.Undecided(rule, construct, "what the comparator compares ("+fw.Sig(a)+" with "+fw.Sig(b)+") could not be traced to the decoded or the raw key")
+		return
+	}
 	// operands are (a, b) in order: first param vs second param => ascending
-	pa, pb := rootParam(fa.X), rootParam(fb.X)
-	if pa == nil || pb == nil || len(cmp.Params) != 2 || pa != cmp.Params[0] || pb != cmp.Params[1] {
-		c.Fail(rule, construct, c.P.Pos(cmpCall.Pos()), "the comparator does not compare (a, b) in ascending order")
-		return
-	}
-	st := derefStructOf(fa.X.Type())
-	vals := fw.StoresToField(fam, st, fa.Field)
-	if len(vals) == 0 {
-		c.Undecided(rule, construct, "no store to the compared field found")
-		return
-	}
-	for _, v := range vals {
-		if !gjsonDecoded(v) {
-			c.Fail(rule, construct, c.P.Pos(cmpCall.Pos()), fmt.Sprintf("the field the comparator sorts on (%s) is not the decoded key (gjson String()): keys whose raw spelling contains escapes sort by the backslash instead of the code point they denote", st.Field(fa.Field).Name()))
+	if fa != nil && fb != nil {
+		pa, pb := rootParam(fa.X), rootParam(fb.X)
+		if pa != nil && pb != nil && len(cmp.Params) == 2 && pa == cmp.Params[1] && pb == cmp.Params[0] && pa != pb {
+			c.Fail(rule, construct, c.P.Pos(cmpCall.Pos()), "the comparator compares (b, a): descending order")
 			return
 		}
+		if pa == nil || pb == nil || len(cmp.Params) != 2 || pa != cmp.Params[0] || pb != cmp.Params[1] {
+			c.Undecided(rule, construct, "the operands of the comparison could not be matched with the comparator's parameters")
+			return
+		}
+	} else {
+		c.Undecided(rule, construct, "the operands of the comparison are not fields of the two entries")
+		return
 	}
-	c.Ok(rule, construct, c.P.Pos(cmpCall.Pos()), "strings.Compare(a."+st.Field(fa.Field).Name()+", b."+st.Field(fa.Field).Name()+"), field holds gjson String()")
+	c.Ok(rule, construct, c.P.Pos(cmpCall.Pos()), "strings.Compare(a.f, b.f), field holds gjson String()")
 }
 
 func derefStructOf(t types.Type) *types.Struct {
